@@ -250,6 +250,14 @@ void ProcessCMD(
         DecodeLine(pCMDRecs, CMDRecCnt, EnvLine, ErrProc);
     }
 
+    /* the bookkeeping array holds MAXPARAM entries: refuse what does not fit (the
+       callback ends the program) instead of writing behind it */
+
+    if (argc > MAXPARAM) {
+        ErrProc(False, argv[MAXPARAM]);
+        argc = MAXPARAM;
+    }
+
     for (z = 0; z < argc; z++) {
         Unprocessed[z] = (z != 0);
     }
